@@ -1,5 +1,6 @@
 import XixiKV.Proofs.EngineRestart
 import XixiKV.Proofs.ZeroExt
+import XixiKV.Proofs.TornZero
 /-!
 # C03 — crash recovery, and the atomicity part of C04
 
@@ -348,8 +349,9 @@ example : ∃ g' s' db',
 
 Under `FileIOType = MemoryMap` every data file — the active one and, after rotations, the older ones
 — is physically extended with zeros while it is open (`Model/Fio.lean`); a process death leaves
-them that way.  (Power loss under mmap, a cut INSIDE a record followed by zeros, is the recorded
-finding `mmap-powerloss-cut-inside-record`.) -/
+them that way.  A power failure may in addition persist only the first part of the last record; the
+rest of the pre-extended file reads as zeros (`C03_mmap_power_failure` below; this was the
+finding `mmap-powerloss-cut-inside-record` until the reader rule `tornZero` was added). -/
 
 /-- **C03, mmap, process death.**  A directory whose data files are the ghost files, each followed by
     an arbitrary number of zero bytes (`MatchesZ`): `Open` succeeds under any valid configuration,
@@ -362,6 +364,49 @@ theorem C03_mmap_process_death (s : St) (dir : String) (cfg : Cfg) (d : DirSt) (
     (openDB s dir cfg).2 = .ok ∧ (openDB s dir cfg).1.db = some (MergeP.scanDB cfg dir a g) ∧
       Inv (openDB s dir cfg).1 (MergeP.scanDB cfg dir a g) g :=
   Inv_openDB_zero_ext s dir cfg d g a hdb hcfg hd hl hm hmt hasc hrecs hact
+
+/-- **C03, mmap, power failure inside the last record.**  The last file's ghost content at the time
+    of the failure is `gl`; the image holds its first `j` records completely, the first `m` bytes
+    of what the append of record `j` wrote (`m` < its length, anywhere: inside the padding, the
+    header, the length field, the payload, a later chunk of a multi-block record), and then zeros
+    reaching beyond the end of that record; the older files are zero-extended ghost files.
+
+    Hypothesis `NoFalseAccept`: the ONE `DecodeChunk` call on the chunk that contains the cut does
+    not return a chunk if the bytes it sees differ from the fully persisted ones (a CRC-32 can be
+    fooled with probability 2⁻³²; when the lost bytes were zeros anyway nothing is assumed).
+
+    Then `Open` succeeds under any valid configuration and recovers exactly `gl.take j'` with
+    `j' = j` — or `j + 1` in the degenerate case where only zeros were lost, and certainly `j`
+    whenever the damaged chunk is rejected —, the files are cut back to the recovered bytes, and
+    the engine invariant holds for the recovered log: a PREFIX of the acknowledged history
+    (`C03_prefix` applies to it verbatim). -/
+theorem C03_mmap_power_failure (s : St) (dir : String) (cfg : Cfg) (d : DirSt)
+    (gI : GDir) (id : Nat) (gl : GFile) (j : Nat) (hj : j < gl.length)
+    (dataI : List (Nat × FileSt)) (fl : FileSt) (m k : Nat)
+    (hdb : s.db = none) (hcfg : cfg.Valid)
+    (hd : s.world.get dir = some d) (hl : d.locked = false) (hpl : Adopt.plan s.world dir = none)
+    (hasc : AscIds (gI ++ [(id, gl)]))
+    (hrecs : ∀ x ∈ gI ++ [(id, gl)], ∀ r ∈ x.2, RecOK r)
+    (hdata : d.data = dataI ++ [(id, fl)]) (hI : MatchesZ dataI gI)
+    (hm : m < (writeRec C (encodeRecord gl[j]) ((bytesOf (gl.take j)).size % BS)).size)
+    (hk : (writeRec C (encodeRecord gl[j]) ((bytesOf (gl.take j)).size % BS)).size < m + k)
+    (hnfa : NoFalseAccept C (bytesOf (gl.take j))
+      (writeRec C (encodeRecord gl[j]) ((bytesOf (gl.take j)).size % BS)) m k)
+    (hfl : fl.bytes = bytesOf (gl.take j)
+      ++ (writeRec C (encodeRecord gl[j]) ((bytesOf (gl.take j)).size % BS)).extract 0 m ++ zeros k) :
+    ∃ j', (j' = j ∨ j' = j + 1) ∧
+      ((padOf ((bytesOf (gl.take j)).size % BS) < m →
+        TornRejected C (bytesOf (gl.take j))
+          (writeRec C (encodeRecord gl[j]) ((bytesOf (gl.take j)).size % BS)) m k) → j' = j) ∧
+      ∃ s' db', openDB s dir cfg = (s', .ok) ∧ s'.db = some db' ∧
+        db'.dir = dir ∧ db'.cfg = cfg ∧ db'.activeId = id ∧
+        db'.index = (replayLog (logOf (gI ++ [(id, gl.take j')]))).index ∧
+        (∃ d', s'.world.get dir = some d' ∧
+          d'.data = cutBack dataI gI
+            ++ [(id, ⟨bytesOf (gl.take j'), min fl.synced (bytesOf (gl.take j')).size⟩)]) ∧
+        Inv s' db' (gI ++ [(id, gl.take j')]) :=
+  Inv_openDB_torn_zero_take s dir cfg d gI id gl j hj dataI fl m k hdb hcfg hd hl hpl hasc hrecs
+    hdata hI hm hk hnfa hfl
 
 /-- the sequential reader on a zero-extended well-formed file, either reader mode: exactly the
     records, `validEnd` = the logical size -/
